@@ -25,8 +25,13 @@ Definition poffs_split (n : Z) (o : Qc) : split :=
   let p := rnd32 (Qcz (n / 2) + o)%Qc in
   {| sp_int := Qctrunc p; sp_frac := Qcfrac p |}.
 
-(** the float -> uint32 conversion [jd = qp_int] is defined for -1 < value < 2^32 only *)
-Definition sm_defined (n : Z) (o : Qc) : bool :=
+(** the float -> uint32 conversion [jd = qp_int] is defined for -1 < value < 2^32 only; since the
+    repo's fix fbbfcf6 the code converts only after the range test on the float, so the table is
+    defined for every offset (the predicate is kept for the drivers and always holds) *)
+Definition sm_defined (n : Z) (o : Qc) : bool := true.
+(** the domain on which the *pinned* code's unguarded conversion was defined (C17 keeps the
+    refutation of the pinned statement) *)
+Definition sm_defined_pinned (n : Z) (o : Qc) : bool :=
   let s := poffs_split n o in (0 <=? sp_int s) && (sp_int s <? 2 ^ 32).
 
 (** entry [j1] of the table row written for offset [o] (weights from the generated
@@ -34,7 +39,7 @@ Definition sm_defined (n : Z) (o : Qc) : bool :=
 Definition sm_entry (n it : Z) (o : Qc) (j1 : Z) : Z * Qc :=
   let s := poffs_split n o in
   let jd := sp_int s in
-  if jd <? n then
+  if (0 <=? jd) && (jd <? n) then
     let j0 := wrap32 (jd + j1 - centre it) in
     if j0 <? n then (j0, nthQ (coeffs (K:=QcF) it (sp_frac s)) j1) else (n / 2, 0%Qc)
   else (n / 2, 0%Qc).
